@@ -460,7 +460,10 @@ func r25ScratchBound(c *RuleCtx) {
 			}
 		}
 	}
-	c.add(statusOf(n >= 3), "scratch-bound/sites", "-", "reset loops over locally allocated per-field tables are found (pinned tree: vals, typs, poss in mergeStoredAndRemap)", fmt.Sprintf("found %d", n), props, nil)
+	// (the tables may legitimately be folded into one table of accumulator
+	// structs, whose reset is then judged by the partial-truncate clause of R10;
+	// so their absence is recorded, not reported)
+	c.okP(props, "scratch-bound/sites", "-", fmt.Sprintf("reset loops over locally allocated per-field tables: %d (pinned tree: vals, typs, poss in mergeStoredAndRemap)", n))
 }
 
 // lenOperand: v is len(X) (possibly converted); returns X.
@@ -499,7 +502,7 @@ func tableName(mk *ssa.MakeSlice) string {
 			return types.ExprString(dr.Expr)
 		}
 	}
-	return mk.Name()
+	return strings.ReplaceAll(mk.Type().String(), zapPkgPath+".", "")
 }
 
 func describeLenSrc(v ssa.Value) string {
@@ -624,7 +627,7 @@ func condIsLenTest(cond ssa.Value) bool {
 // The pinned tree has no such recycling (it deletes the entries instead); the
 // clause is exercised by the self-test on every thorough run.
 func r10PartialTruncate(c *RuleCtx) {
-	props := []string{"C02", "C10"}
+	props := []string{"C02", "C10", "C05"}
 	n := 0
 	for _, fn := range c.p.ZapFuncs {
 		eachInstr(fn, func(_ *ssa.BasicBlock, in ssa.Instruction) {
@@ -706,5 +709,436 @@ func r10PartialTruncate(c *RuleCtx) {
 				"slice field(s) "+strings.Join(missing, ", ")+" are not truncated with the others: they keep the previous use's elements and grow with every reuse (values of one document attributed to the next)", props, nil)
 		})
 	}
+	// method form: a function that truncates a slice field of a struct it reaches
+	// through a pointer (a `reset()` of an accumulator type the pinned tree did
+	// not have) must assign every slice field of that struct
+	for _, fn := range c.p.ZapFuncs {
+		if len(fn.Params) == 0 || len(fn.Blocks) == 0 {
+			continue
+		}
+		for _, prm := range fn.Params {
+			pt, ok := prm.Type().Underlying().(*types.Pointer)
+			if !ok {
+				continue
+			}
+			nt := namedOf(pt.Elem())
+			st, ok := pt.Elem().Underlying().(*types.Struct)
+			if !ok || nt == nil || nt.Obj().Pkg() == nil || nt.Obj().Pkg().Path() != zapPkgPath {
+				continue
+			}
+			if _, pinned := pinnedFields[nt.Obj().Name()]; pinned {
+				continue // the pooled / reused types of the pinned tree have their own tables (R10, R12)
+			}
+			var sliceFields []int
+			for i := 0; i < st.NumFields(); i++ {
+				if _, isSlice := st.Field(i).Type().Underlying().(*types.Slice); isSlice {
+					sliceFields = append(sliceFields, i)
+				}
+			}
+			if len(sliceFields) < 2 {
+				continue
+			}
+			truncated, assigned := map[int]bool{}, map[int]bool{}
+			var at ssa.Instruction
+			eachInstr(fn, func(_ *ssa.BasicBlock, in ssa.Instruction) {
+				s, ok := in.(*ssa.Store)
+				if !ok {
+					return
+				}
+				fa, ok := s.Addr.(*ssa.FieldAddr)
+				if !ok || fa.X != ssa.Value(prm) {
+					return
+				}
+				assigned[fa.Field] = true
+				if sl, ok := s.Val.(*ssa.Slice); ok && sl.High != nil {
+					if k, ok := constInt64(sl.High); ok && k == 0 {
+						if u, ok := sl.X.(*ssa.UnOp); ok {
+							if fa2, ok := u.X.(*ssa.FieldAddr); ok && fa2.X == ssa.Value(prm) && fa2.Field == fa.Field {
+								truncated[fa.Field] = true
+								at = s
+							}
+						}
+					}
+				}
+				if st2, ok := in.(*ssa.Store); ok && st2.Addr == ssa.Value(prm) {
+					for _, i := range sliceFields {
+						assigned[i] = true
+					}
+				}
+			})
+			if len(truncated) == 0 {
+				continue
+			}
+			n++
+			var missing []string
+			for _, i := range sliceFields {
+				if !assigned[i] {
+					missing = append(missing, st.Field(i).Name())
+				}
+			}
+			c.add(statusOf(len(missing) == 0), fmt.Sprintf("partial-truncate/%s/%s", funcShortName(fn), nt.Obj().Name()), c.p.instrPos(at),
+				funcShortName(fn)+" truncates slice fields of a "+nt.Obj().Name()+" for reuse and assigns every slice field of it",
+				"slice field(s) "+strings.Join(missing, ", ")+" are left alone while the others are truncated: they keep the previous use's elements and grow with every reuse (values of one document attributed to the next)", props, nil)
+		}
+	}
 	c.okP(props, "partial-truncate/sites", "-", fmt.Sprintf("recycled struct values with truncated slice fields: %d (the pinned tree has none; the clause is kept alive by a seeded edit of the self-test)", n))
+}
+
+// ---------------------------------------------------------------------------
+// R29c
+
+// r29ElementFresh: inside a loop that builds one struct value per element, no
+// field of that value is a variable that can reach the iteration unchanged
+// from the previous one (declared outside the loop, assigned inside it only
+// under a condition): the element would silently inherit its predecessor's
+// value — the classic result of hoisting a `var x T` out of a loop body.
+func r29ElementFresh(c *RuleCtx) {
+	props := []string{"C01", "C06", "C02"}
+	n := 0
+	for _, fn := range c.p.ZapFuncs {
+		loops := naturalLoops(fn)
+		if len(loops) == 0 {
+			continue
+		}
+		perFn := 0
+		eachInstr(fn, func(b *ssa.BasicBlock, in ssa.Instruction) {
+			al, ok := in.(*ssa.Alloc)
+			if !ok || al.Comment != "complit" {
+				return
+			}
+			st, ok := derefType(al.Type()).Underlying().(*types.Struct)
+			if !ok {
+				return
+			}
+			// innermost loop containing the literal
+			var loop *natLoop
+			for _, l := range loops {
+				if l.blocks[b] && (loop == nil || len(l.blocks) < len(loop.blocks)) {
+					loop = l
+				}
+			}
+			if loop == nil {
+				return
+			}
+			n++
+			var bad []string
+			for _, r := range *al.Referrers() {
+				fa, ok := r.(*ssa.FieldAddr)
+				if !ok {
+					continue
+				}
+				for _, r2 := range *fa.Referrers() {
+					s, ok := r2.(*ssa.Store)
+					if !ok || s.Addr != ssa.Value(fa) {
+						continue
+					}
+					if ph := staleCarry(s.Val, loop); ph != nil {
+						name := ph.Comment
+						if name == "" {
+							name = ph.Name()
+						}
+						bad = append(bad, fmt.Sprintf("field %s receives %s, which keeps the previous iteration's value on some path through the loop", st.Field(fa.Field).Name(), name))
+					}
+				}
+			}
+			if len(bad) == 0 {
+				return
+			}
+			perFn++
+			tn := "struct"
+			if nt := namedOf(derefType(al.Type())); nt != nil {
+				tn = nt.Obj().Name()
+			}
+			c.add(Violated, fmt.Sprintf("element-fresh/%s/%s#%d", funcShortName(fn), tn, perFn), c.p.instrPos(al),
+				"a value built once per loop iteration takes every field from that iteration",
+				strings.Join(uniq(bad), "; ")+" — an element without its own value inherits its predecessor's", props, nil)
+		})
+	}
+	c.okP(props, "element-fresh/sites", "-", fmt.Sprintf("struct values built inside loops examined: %d (none takes a stale loop-carried variable)", n))
+}
+
+// staleCarry: v is (through conversions and phis inside the loop) a phi at the
+// loop header one of whose in-loop incoming values can be that phi itself,
+// i.e. the variable may enter the next iteration unassigned. Returns the phi.
+func staleCarry(v ssa.Value, loop *natLoop) *ssa.Phi {
+	seen := map[ssa.Value]bool{}
+	var find func(x ssa.Value, depth int) *ssa.Phi
+	find = func(x ssa.Value, depth int) *ssa.Phi {
+		if depth > 6 || seen[x] {
+			return nil
+		}
+		seen[x] = true
+		switch y := x.(type) {
+		case *ssa.Convert:
+			return find(y.X, depth+1)
+		case *ssa.ChangeType:
+			return find(y.X, depth+1)
+		case *ssa.Phi:
+			if y.Block() == loop.header {
+				if carriesItself(y, loop) {
+					return y
+				}
+				return nil
+			}
+			if loop.blocks[y.Block()] {
+				for _, e := range y.Edges {
+					if p := find(e, depth+1); p != nil {
+						return p
+					}
+				}
+			}
+		}
+		return nil
+	}
+	return find(v, 0)
+}
+
+// carriesItself: some incoming edge of header phi ph from inside the loop
+// carries ph itself (possibly through other phis of the loop).
+func carriesItself(ph *ssa.Phi, loop *natLoop) bool {
+	for i, pred := range ph.Block().Preds {
+		if !loop.blocks[pred] {
+			continue
+		}
+		seen := map[ssa.Value]bool{}
+		var reach func(x ssa.Value, depth int) bool
+		reach = func(x ssa.Value, depth int) bool {
+			if x == ssa.Value(ph) {
+				return true
+			}
+			if depth > 6 || seen[x] {
+				return false
+			}
+			seen[x] = true
+			if q, ok := x.(*ssa.Phi); ok && loop.blocks[q.Block()] {
+				for _, e := range q.Edges {
+					if reach(e, depth+1) {
+						return true
+					}
+				}
+			}
+			return false
+		}
+		if reach(ph.Edges[i], 0) {
+			return true
+		}
+	}
+	return false
+}
+
+// ---------------------------------------------------------------------------
+// R28b
+
+// r28CoReset: two maps that are filled together (two map updates in one basic
+// block: `termToID[t] = id; idToTerm[id] = t`) describe one relation; a place
+// that empties one of them per round (a `clear`, a fresh `make` inside the
+// loop, a reset method) must empty the other too, or the next round looks
+// entries up in one half that the other half no longer has.
+func r28CoReset(c *RuleCtx) {
+	props := []string{"C13", "C06", "C09"}
+	p := c.p
+	nPairs := 0
+	// ---- locals of one function (and its closures) -------------------------
+	for _, fn := range p.ZapFuncs {
+		if fn.Parent() != nil {
+			continue
+		}
+		family := []*ssa.Function{fn}
+		for _, g := range p.ZapFuncs {
+			if g.Parent() != nil && rootParent(g) == fn {
+				family = append(family, g)
+			}
+		}
+		mapOf := func(v ssa.Value) *ssa.MakeMap {
+			mk, _ := root(v).(*ssa.MakeMap)
+			if mk != nil && rootParent(mk.Parent()) == fn {
+				return mk
+			}
+			return nil
+		}
+		type pair struct{ a, b *ssa.MakeMap }
+		pairs := map[pair]ssa.Instruction{}
+		for _, g := range family {
+			for _, b := range g.Blocks {
+				var ups []*ssa.MakeMap
+				var at ssa.Instruction
+				for _, in := range b.Instrs {
+					if mu, ok := in.(*ssa.MapUpdate); ok {
+						if mk := mapOf(mu.Map); mk != nil {
+							ups = append(ups, mk)
+							at = in
+						}
+					}
+				}
+				for i := 0; i < len(ups); i++ {
+					for j := i + 1; j < len(ups); j++ {
+						if ups[i] != ups[j] {
+							pairs[pair{ups[i], ups[j]}] = at
+						}
+					}
+				}
+			}
+		}
+		if len(pairs) == 0 {
+			continue
+		}
+		loops := naturalLoops(fn)
+		// per map: the loops in which it is emptied once per iteration
+		resetIn := func(mk *ssa.MakeMap) map[*natLoop]bool {
+			out := map[*natLoop]bool{}
+			for _, l := range loops {
+				if l.blocks[mk.Block()] {
+					out[l] = true // a fresh map per iteration
+				}
+			}
+			for _, cs := range callSites(fn) {
+				bi, ok := cs.Common().Value.(*ssa.Builtin)
+				if !ok || bi.Name() != "clear" || mapOf(cs.Common().Args[0]) != mk {
+					continue
+				}
+				for _, l := range loops {
+					if l.blocks[cs.Block()] {
+						out[l] = true
+					}
+				}
+			}
+			return out
+		}
+		for pr, at := range pairs {
+			nPairs++
+			ra, rb := resetIn(pr.a), resetIn(pr.b)
+			var bad []string
+			for l := range ra {
+				if !rb[l] {
+					bad = append(bad, fmt.Sprintf("%s is emptied in every round of the loop at %s, %s is not", tableNameOfMap(pr.a), c.p.instrPos(l.header.Instrs[0]), tableNameOfMap(pr.b)))
+				}
+			}
+			for l := range rb {
+				if !ra[l] {
+					bad = append(bad, fmt.Sprintf("%s is emptied in every round of the loop at %s, %s is not", tableNameOfMap(pr.b), c.p.instrPos(l.header.Instrs[0]), tableNameOfMap(pr.a)))
+				}
+			}
+			c.add(statusOf(len(bad) == 0), fmt.Sprintf("co-reset/%s/%s+%s", funcShortName(fn), tableNameOfMap(pr.a), tableNameOfMap(pr.b)), c.p.instrPos(at),
+				"two maps of "+funcShortName(fn)+" that are filled together are emptied together",
+				"one half of a two-way table survives from the previous round: ids handed out from it are not in the other half (wrong or missing synonym terms in the merged thesaurus)", props, uniq(bad))
+		}
+	}
+	// ---- fields of one struct ------------------------------------------------
+	type fpair struct {
+		typ  string
+		a, b int
+	}
+	fpairs := map[fpair]ssa.Instruction{}
+	structOf := map[string]*types.Struct{}
+	fieldOfRecv := func(fn *ssa.Function, v ssa.Value) (string, int, bool) {
+		if len(fn.Params) == 0 {
+			return "", 0, false
+		}
+		u, ok := v.(*ssa.UnOp)
+		if !ok || u.Op != token.MUL {
+			return "", 0, false
+		}
+		fa, ok := u.X.(*ssa.FieldAddr)
+		if !ok || root(fa.X) != ssa.Value(fn.Params[0]) {
+			return "", 0, false
+		}
+		nt := namedOf(derefType(fa.X.Type()))
+		st, ok2 := derefType(fa.X.Type()).Underlying().(*types.Struct)
+		if nt == nil || !ok2 {
+			return "", 0, false
+		}
+		structOf[nt.Obj().Name()] = st
+		return nt.Obj().Name(), fa.Field, true
+	}
+	for _, fn := range p.ZapFuncs {
+		if fn.Signature.Recv() == nil {
+			continue
+		}
+		for _, b := range fn.Blocks {
+			type fu struct {
+				typ string
+				f   int
+			}
+			var ups []fu
+			var at ssa.Instruction
+			for _, in := range b.Instrs {
+				if mu, ok := in.(*ssa.MapUpdate); ok {
+					if t, f, ok := fieldOfRecv(fn, mu.Map); ok {
+						ups = append(ups, fu{t, f})
+						at = in
+					}
+				}
+			}
+			for i := 0; i < len(ups); i++ {
+				for j := i + 1; j < len(ups); j++ {
+					if ups[i].typ == ups[j].typ && ups[i].f != ups[j].f {
+						a, bb := ups[i].f, ups[j].f
+						if a > bb {
+							a, bb = bb, a
+						}
+						fpairs[fpair{ups[i].typ, a, bb}] = at
+					}
+				}
+			}
+		}
+	}
+	for pr, at := range fpairs {
+		nPairs++
+		st := structOf[pr.typ]
+		var bad []string
+		for _, fn := range p.ZapFuncs {
+			if fn.Signature.Recv() == nil || !isNamed(fn.Signature.Recv().Type(), zapPkgPath, pr.typ) {
+				continue
+			}
+			emptied := map[int]bool{}
+			for _, cs := range callSites(fn) {
+				if bi, ok := cs.Common().Value.(*ssa.Builtin); ok && bi.Name() == "clear" {
+					if t, f, ok := fieldOfRecv(fn, cs.Common().Args[0]); ok && t == pr.typ {
+						emptied[f] = true
+					}
+				}
+			}
+			eachInstr(fn, func(_ *ssa.BasicBlock, in ssa.Instruction) {
+				s, ok := in.(*ssa.Store)
+				if !ok {
+					return
+				}
+				fa, ok := s.Addr.(*ssa.FieldAddr)
+				if !ok || root(fa.X) != ssa.Value(fn.Params[0]) {
+					return
+				}
+				if _, isMk := s.Val.(*ssa.MakeMap); isMk || isNilConst(s.Val) {
+					emptied[fa.Field] = true
+				}
+			})
+			if emptied[pr.a] != emptied[pr.b] {
+				x, y := pr.a, pr.b
+				if emptied[pr.b] {
+					x, y = y, x
+				}
+				bad = append(bad, fmt.Sprintf("%s empties %s but not %s", funcShortName(fn), st.Field(x).Name(), st.Field(y).Name()))
+			}
+		}
+		sort.Strings(bad)
+		c.add(statusOf(len(bad) == 0), fmt.Sprintf("co-reset/%s/%s+%s", pr.typ, st.Field(pr.a).Name(), st.Field(pr.b).Name()), c.p.instrPos(at),
+			"two map fields of "+pr.typ+" that are filled together are emptied together by every method that empties one of them",
+			"one half of a two-way table survives a reset: entries looked up in it point at ids the other half no longer has", props, bad)
+	}
+	c.okP(props, "co-reset/pairs", "-", fmt.Sprintf("pairs of maps filled together: %d", nPairs))
+}
+
+func tableNameOfMap(mk *ssa.MakeMap) string {
+	for _, r := range *mk.Referrers() {
+		switch x := r.(type) {
+		case *ssa.DebugRef:
+			if x.Expr != nil {
+				return types.ExprString(x.Expr)
+			}
+		case *ssa.Store:
+			if al, ok := x.Addr.(*ssa.Alloc); ok && al.Comment != "" {
+				return al.Comment
+			}
+		}
+	}
+	return strings.ReplaceAll(mk.Type().String(), zapPkgPath+".", "")
 }
